@@ -272,7 +272,7 @@ class Inliner:
             return self.cache[key]
         if key in self.active or len(self.active) >= MAX_DEPTH:
             return f.raw
-        from .normalize import beta_reduce, fold_format_constants, tuple_state_split, propagate_copies, merge_twin_locals, split_parallel_assign, scalar_replace, desugar_tables, matchify, might_apply, might_dispatch, might_matchify, might_unroll, normalize_formats, unroll_literal_loops
+        from .normalize import unroll_unpacked_comprehension, beta_reduce, fold_format_constants, tuple_state_split, propagate_copies, merge_twin_locals, split_parallel_assign, scalar_replace, desugar_tables, matchify, might_apply, might_dispatch, might_matchify, might_unroll, normalize_formats, unroll_literal_loops
 
         cand = self._has_candidate(f.raw)
         fmt = _might_tuple_state(f.raw) or might_apply(f.raw) or might_dispatch(f.raw, f.module.top) or might_unroll(f.raw, f.module.top) or might_matchify(f.raw) or cand
@@ -283,7 +283,8 @@ class Inliner:
         self.active.add(key)
         try:
             node = copy.deepcopy(f.raw)
-            changed = self._block_owner(node, f, node) if cand else False
+            pre = unroll_unpacked_comprehension(node) if cand else False  # makes helper calls in `a, b, c = (F(i) for i in range(3))` statements
+            changed = (self._block_owner(node, f, node) if cand else False) or pre
             expanded = changed
             if changed:
                 # clean-up that only makes sense on expanded code (the source as written is never touched by it)
